@@ -261,7 +261,7 @@ func (s *sim) bubble() {
 		if l := cl.Leader(0); l >= 0 {
 			la := cl.M[l].Parts[0].Node.GetAppliedIndex()
 			for _, m := range cl.M {
-				if m.Up && m.Parts[0].Node.GetAppliedIndex()+3 < la {
+				if m.Up && m.Parts[0].Node.GetAppliedIndex()+3 < la && !cl.BackpressureStuck(m, 0) {
 					lag = true
 				}
 			}
@@ -595,14 +595,24 @@ func (s *sim) finalCheck() {
 		c.Violate("C19", "no-settle", "", "no leader after settling")
 		return
 	}
-	// all replicas agree on the position and it did not move backwards
-	var S uint64
-	for i, m := range cl.M {
+	// replicas that converged agree on the position; a replica that did not
+	// converge is not C19's business unless nobody knows why
+	la := cl.M[l].Parts[0].Node.GetAppliedIndex()
+	_, S, _ := cl.M[l].Parts[0].Node.GetRemoteClusterSyncedRaft(srcCluster)
+	var conv []*nodeh.Machine
+	for _, m := range cl.M {
+		if m.Parts[0].Node.GetAppliedIndex() != la {
+			if cl.BackpressureStuck(m, 0) {
+				c.Probe("replica_stuck_by_backpressure_excluded")
+				continue
+			}
+			c.Violate("C19", "no-settle", "", "machine %d did not converge (applied %d, leader %d)", m.Idx, m.Parts[0].Node.GetAppliedIndex(), la)
+			return
+		}
+		conv = append(conv, m)
 		_, idx, _ := m.Parts[0].Node.GetRemoteClusterSyncedRaft(srcCluster)
-		if i == 0 {
-			S = idx
-		} else if idx != S {
-			c.Violate("C19", "position-differs", "", "after settling machine %d reports synced index %d, machine 0 reports %d", i, idx, S)
+		if idx != S {
+			c.Violate("C19", "position-differs", "", "after settling machine %d reports synced index %d, the leader (machine %d) reports %d at equal applied index %d", m.Idx, idx, l, S, la)
 			return
 		}
 	}
@@ -619,7 +629,7 @@ func (s *sim) finalCheck() {
 		}
 	}
 	_ = wantSum
-	for _, m := range cl.M {
+	for _, m := range conv {
 		h, _ := m.Parts[0].Node.GetHandler("lrange")
 		conn := &nodeh.CapConn{}
 		h(conn, nodeh.Cmd("lrange", "default:t:log", "0", "-1"))
